@@ -47,7 +47,8 @@ def run(ctx):
     samples = verif.samples_from(lines, 3)
     cov = {"evaluations": n, "distinct_nontrivial": res["distinct_nontrivial"], "rule": res["rule"], "samples": samples,
            "scripts_enumerated_by_tlc": nscripts, "records_checked_by_tlc": n, "records_rejected": len(bad),
-           "counters": cnt, "exhaustive": ctx.thorough()}
+           "counters": cnt, "exhaustive": False,
+           "selection": "quick: seeded 1/40 of the table; thorough: all clean scripts, seeded 1/2 of the single-fault and 1/8 of the pair scripts (different seeds cover different parts)"}
     return verif.finish(ctx, "fault_enumeration", cov, [
         "faults are injected by a wrapping fs.FS behind the existing backupFSTestHook (in-process) and by permission bits / missing targets for an unprivileged run of the binary built from the tree",
         "a fault counts only when the file system really returned it to restic (delivered); items below a faulted directory are never reached",
